@@ -17,7 +17,8 @@ func init() {
 			"C01.seed-rehash: in the AssembleFile worker, between a seed WriteInto and selfSeed.add lies the range loop over the segment's chunks whose every iteration passes the hash-equal edge or a successful writeChunk. " +
 			"C01.truncate: the first worker start is reached only after os.Truncate(name, idx.Length())==nil or on the block-device path. C01.null-skip: nullChunkSection.WriteInto writes nothing only on the isBlank edge, and isBlank is set only after the target was created or found empty. " +
 			"C01.validate-first: the feeder sends jobs only behind plan.Validate()==nil; Plan.Validate submits every file-seed candidate; its worker validates and fails on error; fileSeedSegment.Validate re-hashes every chunk of the whole segment. " +
-			"C01.plan-tiling: in SeedSequencer.Next first=current, last=current+advance-1, current'=current+advance with advance>=1 (linear forms over SSA). C01.errgroup: workers run under errgroup and success is returned only through g.Wait().",
+			"C01.plan-tiling: in SeedSequencer.Next first=current, last=current+advance-1, current'=current+advance with advance>=1 (linear forms over SSA). C01.errgroup: workers run under errgroup and success is returned only through g.Wait(). " +
+			"C01.chunks-verified (shared with C03): writeChunk only compares sizes, so the output can equal the blob only if every Store.GetChunk returns data that hashes to the requested id: the verifying constructors and all store back ends are checked as under C03.",
 		NotDecided: "byte equality of the output, clone-range arithmetic (FICLONERANGE), optimality/termination of re-planning, the self-seed's contiguous-prefix invariant beyond lock discipline, worker interleavings.",
 		Rules: []rule{
 			{"C01.lock-pairing", "every lock acquired in FileSeed/selfSeed methods is released on every return", 5, func(c *Ctx) { c.lockPairing("FileSeed", "selfSeed") }},
@@ -29,6 +30,7 @@ func init() {
 			{"C01.null-skip", "null sections are skipped only when the target is known blank", 3, c01NullSkip},
 			{"C01.validate-first", "jobs are fed only after plan.Validate()==nil; Validate covers every file-seed candidate and re-hashes every chunk", 5, c01ValidateFirst},
 			{"C01.plan-tiling", "plan segments tile the index: first=current, last=current+advance-1, current+=advance, advance>=1", 4, c01PlanTiling},
+			{"C01.chunks-verified", "every chunk a store hands to the assembler was verified against the requested id (shared with C03)", 16, func(c *Ctx) { c03CtorVerifies(c); c03Backends(c) }},
 			{"C01.errgroup", "assembly workers run under errgroup; success only through g.Wait()", 2, func(c *Ctx) { c.errgroupRule("AssembleFile", "Plan.Validate") }},
 			{"C01.worker-errors", "a failed copy, read, write or chunk fetch fails the assembly worker", 1, c01WorkerErrors},
 			{"C01.validate-marks-invalid", "every seed failure reported by Plan.Validate marks that seed invalid (re-planning terminates)", 2, c01MarksInvalid},
